@@ -14,3 +14,12 @@ Theorem C09_no_selection_no_fix : forall V (line : V -> nat) r (vs : list V),
   fixed_violations line (Some []) r vs = [].
 Proof. intros V. exact (@fix_only_empty_is_identity V). Qed.
 Print Assumptions C09_no_selection_no_fix.
+
+Require Import Tokenizer Lines LinesProofs.
+(* the trailing-whitespace normaliser of rule_list.fix leaves a list alone in which no whitespace token sits
+   directly in front of a carriage return - the shape of every re-read file *)
+Theorem C09_trailing_whitespace_noop : forall l, ws_before_cr_free l ->
+  (match l with t :: _ => is_cr t = true -> is_ws (last l t) = false | [] => True end) ->
+  fix_trailing_whitespace l = l.
+Proof. exact fix_trailing_whitespace_noop. Qed.
+Print Assumptions C09_trailing_whitespace_noop.
